@@ -97,6 +97,12 @@ func Load() *Universe {
 	}
 	u.AllLicense = append(append([]string{}, u.Active...), u.Deprecated...)
 	defer func() {
+		// a synthesised suffix stacked on a synthesised suffix: X-or-later is not a listed id, so X-or-later-only is unknown
+		for i, x := range u.SynthBase {
+			if i%40 == 0 {
+				u.Unknown = append(u.Unknown, x+"-or-later-only", x+"-only-or-later", x+"-only-only", x+"-or-later-or-later")
+			}
+		}
 		for _, x := range UnknownIDs {
 			if !u.ListedFold(x) {
 				u.Unknown = append(u.Unknown, x)
